@@ -14,6 +14,7 @@ import (
 	"sync/atomic"
 	"testing"
 	"testing/synctest"
+	"time"
 )
 
 func getg() uintptr
@@ -65,6 +66,8 @@ type Config struct {
 	Horizon    int  // max scheduling steps (0 = 200000)
 	// MapSite reports whether the map-range site is an explored choice point.
 	MapSite func(site string) bool
+	// SeqTimeout bounds one sequential execution in wall-clock time (0 = 60 s).
+	SeqTimeout time.Duration
 	// Log, when set, receives one line per scheduling step (replay diagnostics).
 	Log func(string)
 }
@@ -282,21 +285,41 @@ func Run(t *testing.T, cfg Config, body func()) (res Result) {
 		res.Livelock, res.Diverged = sc.Livelock, sc.Diverged
 	}
 	if cfg.Sequential {
+		// The body runs on its own goroutine so that a body that never returns (a real deadlock of the
+		// code under test: there is no scheduler in this mode) cannot wedge the worker. The limit is a
+		// generous wall-clock guard for executions that normally take milliseconds; a hit is reported as
+		// a hang verdict and the goroutine is abandoned.
 		sc.seqG = &G{noPts: 1}
-		sc.seqGoid = getg()
 		cur.Store(sc)
 		defer cur.Store(nil)
-		func() {
+		done := make(chan struct{})
+		go func() {
+			defer close(done)
+			sc.seqGoid = getg()
 			defer func() {
 				if r := recover(); r != nil {
 					if _, ok := r.(abortExec); !ok {
+						sc.mu.Lock()
 						sc.Panics = append(sc.Panics, fmt.Sprintf("%v\n%s", r, debug.Stack()))
+						sc.mu.Unlock()
 					}
 				}
 			}()
 			body()
 		}()
-		fill()
+		limit := cfg.SeqTimeout
+		if limit == 0 {
+			limit = 60 * time.Second
+		}
+		select {
+		case <-done:
+			fill()
+		case <-time.After(limit):
+			sc.mu.Lock()
+			res.Trace = append([]Point{}, sc.Trace...)
+			res.Deadlock = fmt.Sprintf("the operation did not return within %v (sequential execution, no scheduler): a goroutine is blocked forever", limit)
+			sc.mu.Unlock()
+		}
 		return
 	}
 	defer func() {
